@@ -15,7 +15,7 @@ PROP = "C04"
 
 def _ge(a, b):
     """a >= b as python bool or z3 Bool"""
-    if isinstance(a, int) and isinstance(b, int):
+    if isinstance(a, (int, float)) and isinstance(b, (int, float)):
         return a >= b
     return to_z3(a) >= to_z3(b)
 
@@ -191,7 +191,7 @@ class OneRequest(Harness):
 
 
 def _eqz(a, b):
-    if isinstance(a, int) and isinstance(b, int):
+    if isinstance(a, (int, float)) and isinstance(b, (int, float)):
         return a == b
     return to_z3(a) == to_z3(b)
 
@@ -229,12 +229,15 @@ CONFIGS_QUICK = [
 CONFIGS_C04_EXTRA = [
     {"transport": "aa55", "keep_alive": False, "T": 2, "retries": 1},
     {"transport": "tcp", "keep_alive": True, "T": 2, "retries": 1, "tx_start": 0xFFFE},
+    {"transport": "udp", "keep_alive": False, "T": 1.5, "retries": 1},      # a timeout that is not a whole number of seconds
+    {"transport": "tcp", "keep_alive": True, "T": 2.5, "retries": 1},
 ]
 ALPHABET = ["drop", "answer", "short_garbage", "bad_checksum", "exception", "two_fragments", "lone_fragment", "duplicate",
             "peer_closes", "send_error", "sym_garbage", "dup_fragment", "dup_exception"]
 
 
-ALPHABET_QUICK = ["drop", "answer", "short_garbage", "exception", "two_fragments", "peer_closes", "send_error", "dup_fragment"]
+ALPHABET_QUICK = ["drop", "answer", "short_garbage", "exception", "two_fragments", "peer_closes", "send_error", "dup_fragment",
+                  "lone_fragment"]
 
 
 def tasks(tier, seed):
@@ -251,7 +254,7 @@ def tasks(tier, seed):
         if tier == "thorough":
             # depth 3 (retries=2) with the 8-kind alphabet, depth <= 2 with the full 12-kind alphabet
             alphabet = ALPHABET_QUICK if c["retries"] >= 2 else ALPHABET
-        if c.get("tx_start"):
+        if c.get("tx_start") or isinstance(c["T"], float):
             alphabet = ["drop", "answer", "exception"]
         base_alphabet = alphabet
         for k0 in alphabet:
@@ -359,11 +362,11 @@ def evidence_meta(tier):
                 "virtual world; per transmission the peer's kind is enumerated over the alphabet and its delays are "
                 "symbolic integers, ordered against the library's timers by the solver inside the real heap code",
         "bounds": {"transmissions": "retries+1 <= 2 (quick) / 3 (thorough), one request", "alphabet": ALPHABET, "alphabet_depth3": ALPHABET_QUICK,
-                   "delays": "0..2T+1 ticks (symbolic)", "framings": "Modbus RTU/UDP, Modbus/TCP, AA55/UDP (ES runtime command)", "timeout_T": "2, 3 ticks", "retries": "0, 1 (quick) / up to 2 (thorough)",
+                   "delays": "0..2T+1 ticks (symbolic)", "framings": "Modbus RTU/UDP, Modbus/TCP, AA55/UDP (ES runtime command)", "timeout_T": "2, 3 ticks; 1.5 and 2.5 with the alphabet drop/answer/exception (peer delays stay whole ticks)", "retries": "0, 1 (quick) / up to 2 (thorough)",
                    "tcp_connect": "ok after 0..2 ticks, refused, unreachable, never",
                    "hard_cap": "transmissions > retries+3 or virtual time beyond (retries+3)(T+6)+4T abort the path as a violation"},
         "outside": ["retries > 2", "more than two fragments", "kernel behaviour of real sockets", "exception typing details "
                     "(C09)"],
-        "assumptions": ["environment stubbed below asyncio at the BSD socket contract (symx/vworld.py); integer tick clock",
+        "assumptions": ["environment stubbed below asyncio at the BSD socket contract (symx/vworld.py); tick clock with resolution 1/1000",
                         "CRC: real function on concrete frames, uninterpreted on symbolic garbage"],
     }
